@@ -198,6 +198,28 @@ Fixpoint band_lookup (bs : list band) (f : Q) : res Q :=
   | (Some (lo, hi), v) :: t => if Qle_bool lo f && Qle_bool f hi then Ok v else band_lookup t f
   end.
 
+(* Roadm.set_roadm_paths: the impairment profile a crossing of path type pt gets.  profiles = the variety's
+   roadm-path-impairments in library order as (id, path type, table); impairment_id = what per_degree_impairments
+   binds to the (from, to) degree pair (None when nothing is bound: `impairment_id is None`; the id 0 is an id). *)
+Fixpoint first_of_type {A : Type} (profiles : list (Z * Z * A)) (pt : Z) : option A :=
+  match profiles with
+  | [] => None
+  | (_, t, a) :: r => if Z.eqb t pt then Some a else first_of_type r pt
+  end.
+Fixpoint profile_by_id {A : Type} (profiles : list (Z * Z * A)) (i : Z) : option A :=
+  match profiles with
+  | [] => None
+  | (j, _, a) :: r => if Z.eqb j i then Some a else profile_by_id r i
+  end.
+Definition roadm_profile {A : Type} (profiles : list (Z * Z * A)) (global : A) (pt : Z) (impairment_id : option Z) : res A :=
+  match impairment_id with
+  | None => match first_of_type profiles pt with Some a => Ok a | None => Ok global end
+  | Some i => match profile_by_id profiles i with
+              | Some a => Ok a
+              | None => Err "NetworkTopologyError:impairment-profile-id"%string
+              end
+  end.
+
 Inductive element :=
   | EFiber (fib : fiber)
   | EAmp (pmd pdl : Q)                       (* Edfa.propagate: params.pmd, params.pdl *)
